@@ -173,20 +173,22 @@ decoder!(k_npy_decode_u8, 8, Type::U8, |x| x as f64);
 
 /// a partial trailing value is an error, never a silently shorter array (C16, C18)
 #[kani::proof]
-#[kani::unwind(12)]
+#[kani::unwind(6)]
 fn k_npy_decode_partial_value_is_error() {
-    let bytes: [u8; 11] = kani::any();
-    let n: usize = kani::any();
-    kani::assume(n <= 11);
-    let mut reader = &bytes[..n];
-    let r = TypeDescriptor::new(Endian::Little, Type::F4).read(&mut reader);
-    if n % 4 == 0 {
-        assert!(r.is_ok() && r.unwrap().len() == n / 4, "whole values decode, in number");
-    } else {
-        assert!(r.is_err(), "a partial trailing value is an error");
+    let bytes: [u8; 9] = kani::any();
+    // every stream length 0..=9 (concrete), contents symbolic
+    let mut n = 0;
+    while n <= 9 {
+        let mut reader = &bytes[..n];
+        let r = TypeDescriptor::new(Endian::Little, Type::F4).read(&mut reader);
+        if n % 4 == 0 {
+            assert!(r.is_ok() && r.unwrap().len() == n / 4, "whole values decode, in number");
+        } else {
+            assert!(r.is_err(), "a partial trailing value is an error");
+        }
+        n += 1;
     }
-    kani::cover!(n == 11);
-    kani::cover!(n == 8);
+    kani::cover!(true);
 }
 
 /// f64 little-endian encoding round trip, all bit patterns (C07 value path)
